@@ -42,9 +42,13 @@ class Gen:
         """returns (dict with name/namespace/aliases/doc, full name, namespace of the new type)"""
         r = self.r
         simple = self.fresh(base)
-        how = r.below(6)
+        how = r.below(7)
         d = {}
-        if how == 0:          # plain: inherits
+        if how == 6:          # namespace and simple name share text (prefix, equal, extension)
+            ns = r.choice([simple[:2], simple[:-1], simple, simple + 'x', simple[0]])
+            d['name'] = simple
+            d['namespace'] = ns
+        elif how == 0:          # plain: inherits
             d['name'] = simple
             ns = ens
         elif how == 1:        # explicit namespace
@@ -207,9 +211,11 @@ class Gen:
             for _ in range(8):
                 if len(out) >= n:
                     break
+                snapshot = dict(self.defined)
                 b = self.schema(depth + 1, ens, in_union=True)
                 key = self.branch_key(b)
                 if key in seen or key == 'union':
+                    self.defined = snapshot       # a discarded branch defines nothing
                     continue
                 seen.add(key)
                 out.append(b)
@@ -251,18 +257,17 @@ class Gen:
 
     def branch_key(self, b):
         if isinstance(b, str):
-            return b if b in PRIMS else 'named:' + b
+            return b if b in PRIMS else 'named:' + b.split('.')[-1]
         if isinstance(b, list):
             return 'union'
         t = b.get('type')
         if t in ('record', 'enum', 'fixed'):
-            return 'named:' + b['name']
+            return 'named:' + b['name'].split('.')[-1]
         if isinstance(t, dict):
             return self.branch_key(t)
         if isinstance(t, list):
             return 'union'
-        lt = b.get('logicalType')
-        return t if lt is None else t + ':' + lt     # the library keys unnamed branches by logical kind
+        return t      # a logical type does not change the type of a branch
 
 def gen_schema_json(rng, max_depth=3, attrs=True, weird=True):
     g = Gen(rng, max_depth, attrs, weird)
